@@ -412,6 +412,27 @@ def closeable_next(v):
         v.check('yields-the-chunk-read', st.reads == 1)
 
 
+@harness(PROP, 'falcon.app_helpers:CloseableStreamIterator.__next__', name='closeable_lifecycle', inline=['falcon.app_helpers:CloseableStreamIterator.close'])
+def closeable_lifecycle(v):
+    """What a PEP 3333 server does with the returned iterable: __next__ until it stops or fails (here: up to 3 calls, every outcome of
+    each read), then close() exactly once.  The stream must then have been closed exactly once and never read after it was closed."""
+    st = ReadStream(v, False)
+    it = v.obj('falcon.app_helpers:CloseableStreamIterator', _stream=st, _block_size=8192)
+    calls = v.choose(4, 'next-calls')
+    for _ in range(calls):
+        out = v.call(it)
+        if out.exc is not None:
+            break
+    closer = v.ctx.interp.getattr(it, 'close') if not v.concrete else it.close
+    if v.concrete:
+        closer()
+    else:
+        v.ctx.interp.call(closer, [], {})
+    v.check('stream-closed-exactly-once-over-the-life-of-the-iterator', st.closes == 1)
+    v.check('stream-never-read-after-it-was-closed', not st.read_after_close)
+    v.cover('lifecycle-complete')
+
+
 @harness(PROP, 'falcon.app_helpers:CloseableStreamIterator.close')
 def closeable_close(v):
     has_close = bool(v.choose(2, 'stream-has-close?'))
@@ -602,6 +623,9 @@ KILLS = [
     ('falcon/response.py', "                    handler, _, _ = self.options.media_handlers._resolve(\n                        self.content_type, self.options.default_media_type\n",
      "                    handler, _, _ = self.options.media_handlers._resolve(\n                        self.options.default_media_type, self.options.default_media_type\n",
      'media-handler-resolved-for-the-response-content-type'),
+    # eager close at the end of the stream although the server closes the iterable as well (PEP 3333): two close() calls
+    ('falcon/app_helpers.py', "        if data == b'':\n            raise StopIteration\n", "        if data == b'':\n            self.close()\n            raise StopIteration\n",
+     'stream-closed-exactly-once-over-the-life-of-the-iterator'),
     ('falcon/app_helpers.py', "        try:\n            self._stream.close()\n        except (AttributeError, TypeError):\n            pass", "        pass", 'closes-the-stream-exactly-once'),
 ]
 HARMLESS = [
